@@ -17,6 +17,7 @@ from __future__ import annotations
 import hashlib
 import logging
 import os
+import re
 import struct
 import zlib
 
@@ -24,7 +25,8 @@ from vcore import Infra, pyres
 
 TESTDATA = "/repo/tests/nxpimage/data"
 FINDING_MISDETECT = "C14-later-start-misdetected"
-FINDING_OTHER_MEMTYPE = "C14-untyped-parse-other-memtype"
+FINDING_UNTYPED = "C14-untyped-parse-mbi-lenient"
+FINDING_BYNAME = "C14-init-offset-by-name-refused"
 APP_PARSERS = ("SegmentMbi", "SegmentHab", "SegmentAhab", "SegmentSB21", "SegmentSB31")
 
 
@@ -44,6 +46,7 @@ class Factory:
         self.cache = {}
         self.files = {}
         self.replaced = []
+        self.mbi_cfg, self.hab_cfg, self.ahab_cfg = {}, {}, {}
 
     def path(self, data: bytes) -> str:
         h = hashlib.blake2b(data, digest_size=10).hexdigest()
@@ -143,6 +146,7 @@ class Factory:
                 m.load_from_config(cfg)
                 data = m.export()
                 m.parse(family, data).export()   # an application the family's image format cannot hold does not re-export
+                self.mbi_cfg[(family, auth, n)] = cfg
                 return data
             except Exception as exc:  # noqa: BLE001 - try the next application source
                 last = exc
@@ -155,6 +159,8 @@ class Factory:
         app[0:8] = struct.pack("<II", 0x20002000, start + ils + 0x41)
         cfg = {"options": {"flags": 0, "startAddress": start, "ivtOffset": ivt, "initialLoadSize": ils},
                "inputImageFile": self.path(bytes(app)), "sections": []}
+        import copy
+        self.hab_cfg[(ivt, ils, n)] = copy.deepcopy(cfg)
         return HabContainer.load_from_config(HabContainer.transform_bd_configuration(cfg)).export()
 
     def _ahab(self, family, revision, target, n):
@@ -168,6 +174,8 @@ class Factory:
                "containers": [{"container": {"srk_set": "none", "fuse_version": 0, "sw_version": 0, "images": [
                    {"image_path": img, "load_address": 0x1FFE0000, "entry_point": 0x1FFE0000, "image_type": "executable",
                     "core_id": core, "is_encrypted": False, "hash_type": "sha256"}]}}]}
+        import copy
+        self.ahab_cfg[(family, revision, target, n)] = copy.deepcopy(cfg)
         a = AHABImage.load_from_config(cfg)
         a.update_fields()
         return a.export()
@@ -358,7 +366,7 @@ def gen_cases(T, row, rng, quick):
                 spec[kd["label"]] = header_spec(T, row, segs, i, rng, size_class)
         for init in inits:
             out.append({"row": [row["family"], row["revision"], row["mem_type"]], "init": init, "segs": spec, "sizes": size_class})
-            if mi == 0 or (not quick and mi % 4 == 1):
+            if (mi == 0 and (not quick or init == 0 or rng.randrange(3) == 0)) or (not quick and mi % 4 == 1):
                 out[-1]["extra"] = 1   # also pre_parse_verify and parse without memory type
         # one request that is not exactly a segment offset (the setter rounds up); requests by segment name are covered by the
         # init_offset stream through the constructor (the configuration schema only admits numbers)
@@ -568,14 +576,21 @@ def run_case(T, F, case, rowinfo, full_cache):
                 fnd.append("-")
         res["any"] = f"A:{w};{pa.init_offset};{','.join(fnd)}"
         res["any_req"] = (own, [r["layout"] for r in mts])
-        if w > own:
-            fail("parse without memory type answers a memory type that comes after the one the image was made for", pa.mem_type.label, mt)
-        elif mts[w]["layout"] == rowinfo["layout"]:
-            if res["any"][2:].split(";", 1)[1] != res["parse"][2:]:
-                fail("parse without memory type (same segment table) recovers something else than parse with the memory type", res["any"], res["parse"])
-        else:
-            fail("parse without memory type accepts the image under another memory type's segment table", (pa.mem_type.label, res["any"]), (mt, res["parse"]),
-                 FINDING_OTHER_MEMTYPE)
+        # whatever memory type is reported (an image may legitimately fit several: a HAB-only image is also a serial-downloader
+        # image), the same segments must be found at the same places as with the memory type given
+        def by_label(sg, line):
+            return {kd["label"]: f for (kd, _), f in zip(sg, line.split(";")[-1].split(",")) if f != "-"}
+        a, b = by_label(wsegs, res["any"]), by_label(segs, res["parse"])
+        if a != b or (mts[w]["layout"] == rowinfo["layout"] and pa.init_offset != init):
+            # known finding: a memory type whose application is an MBI takes foreign bytes (MasterBootImage.parse accepts nearly
+            # anything as a plain image); matched only when the reported memory type's application parser is the MBI one and
+            # it is another segment table or an earlier init offset than the image was made with
+            fnd2 = FINDING_UNTYPED if ((pa.init_offset < init or mts[w]["layout"] != rowinfo["layout"])
+                                       and any(kd["parser"] == "SegmentMbi" for kd, _ in wsegs)) else None
+            fail("parse without memory type does not find the segments that parse with the memory type finds",
+                 (pa.mem_type.label, res["any"]), (mt, res["parse"]), fnd2)
+            if fnd2:
+                res["any_req"] = None   # the model's container recogniser is not lenient: no comparison for the known finding
     return res
 
 
@@ -671,6 +686,247 @@ def feed(ck, s, drv, T, results):
                 s.compare(case, real, ans)
 
 
+# ====================================================================================== glue: YAML-configured segments, CLI, store_config
+def _yaml_dump(path, obj):
+    import yaml
+    with open(path, "w") as fh:
+        yaml.safe_dump(obj, fh, sort_keys=False)
+    return path
+
+
+def run_glue(T, F, row, wdir):
+    """One row, all segments supplied: (1) segments given as YAML configurations (FCB, XMCD, MBI, HAB, AHAB) are equivalent to
+    the same segments given as binary files holding the configured object's export; (2) `nxpimage bootable-image merge` writes the
+    API's export, `verify` accepts it, `parse` stores a configuration from which `merge` reproduces the image."""
+    import yaml
+    from click.testing import CliRunner
+    from spsdk.apps import nxpimage
+    from spsdk.image.bootable_image.bimg import BootableImage
+    from spsdk.image.fcb.fcb import FCB
+    from spsdk.image.mem_type import MemoryType
+    from spsdk.image.xmcd.xmcd import XMCD
+    fam, rev, mt = row["family"], row["revision"], row["mem_type"]
+    segs = T.segs(row)
+    os.makedirs(wdir, exist_ok=True)
+    fails, kinds_yaml = [], []
+    case = {"row": [fam, rev, mt], "glue": 1}
+
+    def fail(what, observed=None, expected=None, finding=None):
+        fails.append((what, observed, expected, finding))
+
+    cfg = {"family": fam, "revision": rev, "memory_type": mt, "init_offset": 0}
+    mtype = MemoryType.from_label(mt)
+    want_bytes = {}   # label -> bytes the configured object is known to export (built independently of the bootable image)
+    for i, (kd, off) in enumerate(segs):
+        p, key = kd["parser"], kd["cfg_key"]
+        ypath = os.path.join(wdir, f"{kd['label']}.yaml")
+        try:
+            if p == "SegmentFcb":
+                if row["fcb_supported"]:
+                    with open(ypath, "w") as fh:
+                        fh.write(FCB(fam, mtype, rev).create_config())
+                    cfg[key] = ypath
+                    kinds_yaml.append("fcb")
+                    want_bytes[kd["label"]] = FCB(fam, mtype, rev).export()
+                else:
+                    cfg[key] = F.path(F.build(fam, rev, f"fcb:{kd['size']}:7:0"))
+            elif p == "SegmentXmcd":
+                fl = XMCD_FILES["rt7xx" if fam.startswith("mimxrt7") else "rt118x"][i % 2]
+                with open(ypath, "w") as fh:
+                    fh.write(XMCD.parse(F.build(fam, rev, "xmcd:" + fl), family=fam, revision=rev).create_config())
+                cfg[key] = ypath
+                kinds_yaml.append("xmcd")
+                want_bytes[kd["label"]] = F.build(fam, rev, "xmcd:" + fl)
+            elif p in ("SegmentImageVersion", "SegmentImageVersionAntiPole"):
+                cfg[key] = 0x1234
+            elif p == "SegmentMbi":
+                want_bytes[kd["label"]] = F.build(fam, rev, "mbi:crc:320", (kd["cls"], mt))
+                cfg[key] = _yaml_dump(ypath, F.mbi_cfg[(fam, "crc", 320)])
+                kinds_yaml.append("mbi")
+            elif p == "SegmentHab":
+                want_bytes[kd["label"]] = F.build(fam, rev, "hab:4096:8192:300", (kd["cls"], mt))
+                cfg[key] = _yaml_dump(ypath, F.hab_cfg[(4096, 8192, 300)])
+                kinds_yaml.append("hab")
+            elif p == "SegmentAhab":
+                tm = "nor" if i == next(j for j, (k, _) in enumerate(segs) if not k["boot_header"]) else "serial_downloader"
+                want_bytes[kd["label"]] = F.build(fam, rev, f"ahab:{tm}:300", (kd["cls"], mt))
+                cfg[key] = _yaml_dump(ypath, F.ahab_cfg[(fam, rev, tm, 300)])
+                kinds_yaml.append("ahab")
+            elif p in ("SegmentSB21", "SegmentSB31"):
+                cfg[key] = F.path(F.build(fam, rev, CANONICAL["sb21" if p == "SegmentSB21" else "sb31"], (kd["cls"], mt)))
+            else:
+                cfg[key] = F.path(F.build(fam, rev, f"raw:{kd['label']}:{kd['size']}:7"))
+        except Exception as exc:  # noqa: BLE001
+            fail(f"the configuration of segment {kd['label']} cannot be produced by the segment's own classes", f"{type(exc).__name__}: {str(exc)[:160]}")
+            return {"case": case, "fails": fails, "cls": "glue-unavailable"}
+    case["yaml"] = kinds_yaml
+    ld = pyres(BootableImage.load_from_config, dict(cfg), [wdir])
+    if ld[0] != "ok":
+        fail("load_from_config raised for segments given as YAML configurations", ld)
+        return {"case": case, "fails": fails, "cls": "glue/" + "+".join(kinds_yaml)}
+    by = ld[1]
+    raws = [s.export() for s in by._segments]
+    ex_y = pyres(by.export)
+    offs_y = [pyres(by.get_segment_offset, s) for s in by._segments]
+    for (kd, _), s, raw in zip(segs, by._segments, raws):
+        if len(s) != len(raw):
+            fail(f"len(segment {kd['label']}) built from a configuration differs from the length of its export", len(s), len(raw))
+        if kd["label"] in want_bytes and raw != want_bytes[kd["label"]]:
+            fail(f"segment {kd['label']} built from its YAML configuration does not hold the bytes the configured object exports",
+                 (len(raw), raw[:16].hex()), (len(want_bytes[kd["label"]]), want_bytes[kd["label"]][:16].hex()))
+    # the same segments as binary files
+    cfg_b = {"family": fam, "revision": rev, "memory_type": mt, "init_offset": 0}
+    for (kd, _), raw in zip(segs, raws):
+        if kd["parser"] in ("SegmentImageVersion", "SegmentImageVersionAntiPole"):
+            cfg_b[kd["cfg_key"]] = 0x1234
+        elif raw:
+            cfg_b[kd["cfg_key"]] = F.path(raw)
+    lb = pyres(BootableImage.load_from_config, cfg_b, [wdir])
+    if lb[0] != "ok" or ex_y[0] != "ok":
+        fail("export of YAML-configured segments / load of their binary form raised", (ex_y[0], lb[0]))
+        return {"case": case, "fails": fails, "cls": "glue/" + "+".join(kinds_yaml)}
+    bb = lb[1]
+    if pyres(bb.export) != ex_y or [pyres(bb.get_segment_offset, s) for s in bb._segments] != offs_y:
+        fail("segments given as YAML configurations are not placed like the same segments given as binary files")
+    data = ex_y[1]
+    # ---- CLI
+    runner = CliRunner()
+    top = _yaml_dump(os.path.join(wdir, "bimg.yaml"), cfg)
+    out = os.path.join(wdir, "merged.bin")
+    r = runner.invoke(nxpimage.main, ["bootable-image", "merge", "-c", top, "-o", out])
+    if r.exit_code != 0 or not os.path.isfile(out):
+        fail("nxpimage bootable-image merge failed", (r.exit_code, str(r.exception)[:160]))
+        return {"case": case, "fails": fails, "cls": "glue/" + "+".join(kinds_yaml)}
+    with open(out, "rb") as fh:
+        merged = fh.read()
+    if merged != data:
+        fail("nxpimage bootable-image merge does not write BootableImage.export()", len(merged), len(data))
+    if rev == "latest":   # the parse / verify commands have no revision option
+        r = runner.invoke(nxpimage.main, ["bootable-image", "verify", "-f", fam, "-m", mt, "-b", out])
+        if r.exit_code != 0:
+            fail("nxpimage bootable-image verify rejects a merged image", (r.exit_code, str(r.exception)[:160]))
+        pdir = os.path.join(wdir, "parsed")
+        r = runner.invoke(nxpimage.main, ["bootable-image", "parse", "-f", fam, "-m", mt, "-b", out, "-o", pdir])
+        stored = os.path.join(pdir, f"bootable_image_{fam}_{mt}.yaml")
+        if r.exit_code != 0 or not os.path.isfile(stored):
+            fail("nxpimage bootable-image parse failed on a merged image", (r.exit_code, str(r.exception)[:160]))
+        else:
+            # (a) from the folder parse wrote into, (b) from another working directory (fixed de9c7c3: sub-configuration files were CWD relative)
+            for where, cwd in (("inside the output folder", pdir), ("from another working directory", wdir)):
+                out2 = os.path.join(wdir, "merged2.bin")
+                if os.path.exists(out2):
+                    os.unlink(out2)
+                old_cwd = os.getcwd()
+                os.chdir(cwd)
+                try:
+                    r = runner.invoke(nxpimage.main, ["bootable-image", "merge", "-c", stored, "-o", out2])
+                finally:
+                    os.chdir(old_cwd)
+                if r.exit_code != 0 or not os.path.isfile(out2):
+                    fail(f"nxpimage bootable-image merge fails on the configuration that parse stored ({where})", (r.exit_code, str(r.exception)[:200]))
+                    continue
+                with open(out2, "rb") as fh:
+                    again = fh.read()
+                if again != merged:
+                    d0 = next((k for k in range(min(len(again), len(merged))) if again[k] != merged[k]), min(len(again), len(merged)))
+                    fail(f"merge of the configuration stored by parse does not reproduce the image ({where})", (len(again), d0), len(merged))
+    # ---- the same through the CLI for an image that starts at a later INIT segment: parse must store the init offset
+    later = next((off for kd, off in segs if off and kd["init_segment"]), None)
+    if later is not None and rev == "latest":
+        top2 = _yaml_dump(os.path.join(wdir, "bimg_later.yaml"), dict(cfg, init_offset=later))
+        outl = os.path.join(wdir, "later.bin")
+        r = runner.invoke(nxpimage.main, ["bootable-image", "merge", "-c", top2, "-o", outl])
+        if r.exit_code != 0 or not os.path.isfile(outl):
+            fail("nxpimage bootable-image merge failed for an image with an init offset", (r.exit_code, str(r.exception)[:160]))
+        else:
+            with open(outl, "rb") as fh:
+                lat = fh.read()
+            if lat != data[later:]:
+                fail("the image merged with an init offset is not the full image without its first bytes", len(lat), len(data) - later)
+            pdir2 = os.path.join(wdir, "parsed_later")
+            r = runner.invoke(nxpimage.main, ["bootable-image", "parse", "-f", fam, "-m", mt, "-b", outl, "-o", pdir2])
+            stored2 = os.path.join(pdir2, f"bootable_image_{fam}_{mt}.yaml")
+            if r.exit_code != 0 or not os.path.isfile(stored2):
+                fail("nxpimage bootable-image parse failed on an image that starts at a later INIT segment", (r.exit_code, str(r.exception)[:160]))
+            else:
+                with open(stored2) as fh:
+                    st = yaml.safe_load(fh)
+                if st.get("init_offset") != later:
+                    fail("the configuration stored by parse does not carry the init offset of the image", st.get("init_offset"), later)
+                out3 = os.path.join(wdir, "later2.bin")
+                old_cwd = os.getcwd()
+                os.chdir(pdir2)
+                try:
+                    r = runner.invoke(nxpimage.main, ["bootable-image", "merge", "-c", stored2, "-o", out3])
+                finally:
+                    os.chdir(old_cwd)
+                if r.exit_code != 0 or not os.path.isfile(out3):
+                    fail("merge fails on the stored configuration of a later-start image", (r.exit_code, str(r.exception)[:160]))
+                else:
+                    with open(out3, "rb") as fh:
+                        if fh.read() != lat:
+                            fail("merge of the stored configuration of a later-start image does not reproduce it", None, len(lat))
+    # ---- init offset by segment NAME through the configuration (documented: "the segment name or the index of initial segment")
+    named = next((kd["label"] for kd, off in segs if off and kd["init_segment"]), None)
+    if named is not None:
+        ln = pyres(lambda: BootableImage.load_from_config(dict(cfg_b, init_offset=named), [wdir]).init_offset)
+        want = next(off for kd, off in segs if kd["label"] == named)
+        if ln != ("ok", want):
+            fail("load_from_config does not take the init offset by segment name", ln, want, FINDING_BYNAME)
+    return {"case": case, "fails": fails, "cls": "glue/" + ("+".join(kinds_yaml) or "binary-only")}
+
+
+def _glue_worker(task):
+    import shutil
+    T = _W["T"]
+    F = Factory(os.path.join(_W["scratch"], "g%d" % os.getpid()))
+    out = []
+    for n, row in enumerate(task):
+        wdir = os.path.join(_W["scratch"], "g%d" % os.getpid(), f"{row['family']}_{row['mem_type']}_{n}")
+        try:
+            out.append(run_glue(T, F, row, wdir))
+        except Exception as exc:  # noqa: BLE001
+            import traceback
+            out.append({"case": {"row": [row["family"], row["revision"], row["mem_type"]], "glue": 1}, "cls": "harness-exception",
+                        "fails": [("unexpected exception in the glue evaluation", f"{type(exc).__name__}: {exc}", traceback.format_exc()[-500:], None)]})
+        shutil.rmtree(wdir, ignore_errors=True)
+    return out
+
+
+def glue_stream(ck, T):
+    import multiprocessing as mp
+    s = ck.stream("glue", "rows (quick: two families per distinct segment table, latest revision; thorough: every family x memory type, latest "
+                  "revision) with all segments supplied, FCB / XMCD / MBI / HAB / AHAB as YAML configuration files: load_from_config places them like "
+                  "the same segments given as binary files (and len(segment object) = length of its export); `nxpimage bootable-image merge` = "
+                  "BootableImage.export(), `verify` accepts it, `parse` (store_config) -> `merge` reproduces the image; non-trivial = every row")
+    latest = [r for r in T.rows if r["revision"] == "latest" and r["usable"]]
+    if ck.quick:
+        by_layout = {}
+        for r in latest:
+            by_layout.setdefault(r["layout"], []).append(r)
+        rows = []
+        for lay in sorted(by_layout):
+            cand = by_layout[lay]
+            rows.append(cand[0])
+            if len(cand) > 1:
+                rows.append(cand[1 + ck.rng.randrange(len(cand) - 1)])
+    else:
+        rows = latest
+    nproc = int(os.environ.get("VERIF_JOBS", "16"))
+    tasks = [rows[i::nproc * 2] for i in range(nproc * 2) if rows[i::nproc * 2]]
+    scratch = os.environ["VERIF_SCRATCH"]
+    if nproc <= 1:
+        _worker_init(T.meta, scratch)
+        results = [_glue_worker(t) for t in tasks]
+    else:
+        with mp.get_context("fork").Pool(nproc, initializer=_worker_init, initargs=(T.meta, scratch)) as pool:
+            results = pool.map(_glue_worker, tasks, chunksize=1)
+    for res in sorted((r for t in results for r in t), key=lambda r: r["case"]["row"]):
+        s.note(res["case"], cls=res["cls"])
+        for what, obs, exp, finding in res["fails"]:
+            s.expect(False, res["case"], what, obs, exp, finding=finding)
+
+
 def corpus_cases():
     import json
     p = os.path.join(os.path.dirname(os.path.dirname(os.path.dirname(os.path.abspath(__file__)))), "corpus", "C14", "cases.json")
@@ -688,11 +944,61 @@ def _tick(ck, name, t0):
     return time.time()
 
 
+MY_LEAN = ("SpsdkVerif.Properties.XC14", "SpsdkVerif.Proofs.BimgDelimit", "SpsdkVerif.Proofs.BimgParse", "SpsdkVerif.Proofs.BimgExport",
+           "SpsdkVerif.Proofs.BimgAny", "SpsdkVerif.Model.Bimg", "SpsdkVerif.Model.BimgSpec", "SpsdkVerif.Generated.BimgTables")
+
+
+def cross_model_obligations(ck):
+    """Properties/XC14.lean (Delimit discharged from the C01 / C07 / C05 models) imports other properties' proof files.  It is
+    built and audited here, apart from Properties/C14.lean: a failure located in C14's own files breaks the check, a failure
+    located in a foreign module (its owner's work in progress) is recorded as 'blocked' and does not."""
+    import vcore
+    mod = "SpsdkVerif.Properties.XC14"
+    path = vcore.LEAN / "SpsdkVerif" / "Properties" / "XC14.lean"
+    names = vcore.theorem_names(path)
+    rc, out = ck._lake([mod])
+    status, detail, axioms = "discharged", "", {}
+    mine = lambda m: m in MY_LEAN
+    if rc != 0:
+        errs = re.findall(r"error: ([^\s:]+\.lean):(\d+)", out)
+        own = [e for e in errs if any(e[0].endswith(m.replace(".", "/") + ".lean") for m in MY_LEAN)]
+        if own or not errs:
+            status, detail = "broken", f"build error in C14's own module: {own[:2] or out[-300:]}"
+        else:
+            status, detail = "blocked", f"foreign module does not build: {sorted({e[0] for e in errs})[:3]}"
+    else:
+        bad_own, bad_foreign = [], []
+        for m in vcore.lean_imports_closure(mod):
+            src = (vcore.LEAN / (m.replace(".", "/") + ".lean")).read_text(encoding="utf-8")
+            for i, line in enumerate(vcore.strip_lean_comments(src).splitlines(), 1):
+                if vcore.FORBIDDEN.search(line):
+                    (bad_own if mine(m) else bad_foreign).append(f"{m}:{i}")
+        audit = vcore.LEAN / "SpsdkVerif" / "Audit" / "XC14.lean"
+        txt = f"-- GENERATED by harness/props/C14.py: axiom audit of Properties/XC14.lean\nimport {mod}\n" + "".join(f"#print axioms {n}\n" for n in names)
+        if not audit.exists() or audit.read_text() != txt:
+            audit.write_text(txt)
+        rc2, aout = vcore.sh(["lake", "env", "lean", str(audit.relative_to(vcore.LEAN))], cwd=vcore.LEAN, timeout=vcore.LAKE_TIMEOUT)
+        for m_ in re.finditer(r"'([^']+)' (does not depend on any axioms|depends on axioms: \[([^\]]*)\])", aout):
+            axioms[m_.group(1)] = [] if m_.group(3) is None else [a.strip() for a in m_.group(3).replace("\n", " ").split(",") if a.strip()]
+        bad_ax = [n for n in names if n not in axioms or not set(axioms[n]) <= vcore.ALLOWED_AXIOMS]
+        if bad_own or (rc2 == 0 and bad_ax and not bad_foreign):
+            status, detail = "broken", f"forbidden token / axiom in C14's own module: {bad_own[:3]} {bad_ax[:3]}"
+        elif bad_foreign or rc2 != 0:
+            status, detail = "blocked", f"forbidden token in a foreign module (work in progress of its owner): {bad_foreign[:3]}"
+    for n in names:
+        ck.obligations.append({"name": n, "kind": "cross-model theorem (Properties/XC14.lean)", "discharged": status == "discharged",
+                               "axioms": axioms.get(n), "note": detail})
+    ck.extra["cross_model_obligations"] = {"status": status, "detail": detail, "theorems": names}
+    if status == "broken":
+        ck.broken.append("cross-model obligation no longer checks: " + detail)
+
+
 def setup(ck):
     import time
     logging.disable(logging.CRITICAL)
     t0 = time.time()
     ck.lean_obligations(generated=["BimgTables"])
+    cross_model_obligations(ck)
     drv = ck.driver()
     t0 = _tick(ck, "lean", t0)
     meta = ck.generated_meta.get("BimgTables")
@@ -800,7 +1106,9 @@ def run(ck):
     results = evaluate(ck, T, tasks)
     t0 = _tick(ck, "evaluate", t0)
     feed(ck, s, drv, T, results)
-    _tick(ck, "model", t0)
+    t0 = _tick(ck, "model", t0)
+    glue_stream(ck, T)
+    _tick(ck, "glue", t0)
 
 
 def replay(ck, data):
